@@ -673,4 +673,234 @@ theorem truthy_of_pyEq_bool (a : Val) (x : Bool) (h : a.pyEq (Val.bool x) = true
       subst h
       cases x <;> simp [Val.truthy, Atom.truthy]
 
+/-! ### `select_blk` on an acyclic network without event feedback -/
+
+/-- number of pending blocks -/
+def card (E : Nat → Bool) (k : Nat) : Nat := wsum (fun _ => 1) E k
+
+theorem listSum_mem (P : Nat → Nat) (l : List Nat) (x : Nat) (h : x ∈ l) : P x ≤ listSum P l := by
+  induction l with
+  | nil => cases h
+  | cons y ys ih =>
+    simp only [listSum]
+    rcases List.mem_cons.mp h with rfl | h'
+    · omega
+    · have := ih h'; omega
+
+theorem exists_max (P : Nat → Nat) (E : Nat → Bool) (k : Nat) (h : ∃ b, b < k ∧ E b = true) :
+    ∃ x, x < k ∧ E x = true ∧ ∀ y, y < k → E y = true → P y ≤ P x := by
+  induction k with
+  | zero => obtain ⟨b, hb, _⟩ := h; omega
+  | succ k ih =>
+    by_cases hk : ∃ b, b < k ∧ E b = true
+    · obtain ⟨x, hx, hEx, hmax⟩ := ih hk
+      by_cases hEk : E k = true
+      · by_cases hle : P k ≤ P x
+        · refine ⟨x, by omega, hEx, fun y hy hEy => ?_⟩
+          by_cases hyk : y = k
+          · subst hyk; exact hle
+          · exact hmax y (by omega) hEy
+        · refine ⟨k, by omega, hEk, fun y hy hEy => ?_⟩
+          by_cases hyk : y = k
+          · subst hyk; omega
+          · have := hmax y (by omega) hEy; omega
+      · refine ⟨x, by omega, hEx, fun y hy hEy => ?_⟩
+        by_cases hyk : y = k
+        · subst hyk; exact absurd hEy hEk
+        · exact hmax y (by omega) hEy
+    · obtain ⟨b, hb, hEb⟩ := h
+      have hbk : b = k := by
+        by_cases hbk : b = k
+        · exact hbk
+        · exact absurd ⟨b, by omega, hEb⟩ hk
+      subst hbk
+      refine ⟨b, by omega, hEb, fun y hy hEy => ?_⟩
+      by_cases hyk : y = b
+      · subst hyk; omega
+      · exact absurd ⟨y, by omega, hEy⟩ hk
+
+theorem mem_succC (c : Circuit) (a x : Nat) : x ∈ c.net.succC a ↔ x < c.cblocks.length ∧ a ∈ cIns (c.blk x) := by
+  simp [Circuit.net, List.mem_filter, List.mem_range]
+
+theorem idep_zero_iff (c : Circuit) (E : Nat → Bool) (b : Nat) :
+    idep c E b = 0 ↔ ∀ a, a ∈ cIns (c.blk b) → E a = false := by
+  simp only [idep, List.length_eq_zero_iff, List.filter_eq_nil_iff, List.mem_eraseDups]
+  constructor
+  · intro h a ha
+    cases hE : E a
+    · rfl
+    · exact absurd hE (h a ha)
+  · intro h a ha
+    simp [h a ha]
+
+/-- in an acyclic network a non-empty eval set (of real blocks) contains a block none of whose
+    inputs is pending -/
+theorem exists_idep_zero (c : Circuit) (P : Nat → Nat) (hP : IsPot c P) (E : Nat → Bool)
+    (hlt : ∀ a, E a = true → a < c.cblocks.length)
+    (h : ∃ b, b < c.cblocks.length ∧ E b = true) :
+    ∃ x, x < c.cblocks.length ∧ E x = true ∧ idep c E x = 0 := by
+  obtain ⟨x, hx, hEx, hmax⟩ := exists_max P E _ h
+  refine ⟨x, hx, hEx, (idep_zero_iff c E x).mpr fun a ha => ?_⟩
+  cases hEa : E a
+  · rfl
+  · have ha' := hlt a hEa
+    have h1 := hP a ha'
+    have h2 := listSum_mem P (c.net.succC a) x ((mem_succC c a x).mpr ⟨hx, ha⟩)
+    have h3 := hmax a ha' hEa
+    omega
+
+/-- … hence `select_blk` returns such a block -/
+theorem selectOk_idep_zero (c : Circuit) (P : Nat → Nat) (hP : IsPot c P) (E : Nat → Bool)
+    (hlt : ∀ a, E a = true → a < c.cblocks.length) (b : Nat) (h : selectOk c E b = true) :
+    E b = true ∧ b < c.cblocks.length ∧ idep c E b = 0 := by
+  simp only [selectOk, Bool.and_eq_true, Bool.or_eq_true, decide_eq_true_eq, beq_iff_eq] at h
+  refine ⟨h.1.1, h.1.2, ?_⟩
+  rcases h.2 with h0 | hall
+  · exact h0
+  · obtain ⟨x, hx, hEx, hix⟩ := exists_idep_zero c P hP E hlt ⟨b, h.1.2, h.1.1⟩
+    simp only [List.all_eq_true, List.mem_range, Bool.or_eq_true, Bool.not_eq_true',
+      Bool.and_eq_true, bne_iff_ne, ne_eq, decide_eq_true_eq] at hall
+    rcases hall x hx with h1 | h1
+    · rw [hEx] at h1; cases h1
+    · exact absurd hix h1.1
+
+/-- the eval set is closed under successors, contains real blocks only, and the queue is empty -/
+structure Closed (c : Circuit) (s : St Val) : Prop where
+  lt : ∀ a, s.E a = true → a < c.cblocks.length
+  succ : ∀ a, s.E a = true → ∀ x, x ∈ c.net.succC a → s.E x = true
+  q : s.Q = []
+
+theorem drain_closed_E (c : Circuit) (s : St Val) (h : Closed c s) (x : Nat) :
+    (drain c.net s).E x = s.E x := by
+  simp [drain, h.q]
+
+theorem card_remove (E E' : Nat → Bool) (b k : Nat) (hb : b < k) (hE : E b = true)
+    (h : ∀ x, E' x = (E x && x != b)) : card E' k + 1 = card E k := by
+  have := wsum_remove (fun _ => 1) E b k hb hE
+  have e : wsum (fun _ => 1) E' k = wsum (fun _ => 1) (fun x => E x && x != b) k :=
+    wsum_congr _ _ _ _ (fun x _ => h x)
+  simp only [card]
+  omega
+
+/-- one iteration with a choice of `select_blk` on a successor-closed eval set (no on_output
+    events): the block leaves the set and nothing enters -/
+theorem evalOp_closed (c : Circuit) (P : Nat → Nat) (hP : IsPot c P) (hne : ∀ b, (c.blk b).events = [])
+    (s : St Val) (hc : Closed c s) (b : Nat) (hsel : selectOk c (drain c.net s).E b = true)
+    (ch : Bool) (v : Val) (h : (evalOp c s b).2 = .ok ch v) :
+    Closed c (evalOp c s b).1 ∧ card (evalOp c s b).1.E c.cblocks.length + 1 = card s.E c.cblocks.length := by
+  have hEeq : ∀ x, (drain c.net s).E x = s.E x := drain_closed_E c s hc
+  have hlt' : ∀ a, (drain c.net s).E a = true → a < c.cblocks.length := fun a ha => hc.lt a (by rw [← hEeq]; exact ha)
+  obtain ⟨hEb, hb, hid⟩ := selectOk_idep_zero c P hP _ hlt' b hsel
+  have hnopred := (idep_zero_iff c _ b).mp hid
+  rw [hEeq] at hEb
+  -- successors of b are pending already and differ from b
+  have hsucc : ∀ x, x ∈ c.net.succC b → s.E x = true ∧ x ≠ b := by
+    intro x hx
+    refine ⟨hc.succ b hEb x hx, fun hxb => ?_⟩
+    subst hxb
+    have := hnopred x ((mem_succC c x x).mp hx).2
+    rw [hEeq, hEb] at this; cases this
+  rcases evalOp_cases c s b with ⟨_, h2⟩ | ⟨_, _, h3⟩ | ⟨_, _, _, h3⟩ | ⟨_, _, _, _, ch', v', h3⟩
+  · rw [h2] at h; cases h
+  · rw [h3] at h; cases h
+  · rw [h3] at h; cases h
+  · rw [h3]
+    simp only []
+    have hE' : ∀ x, (evalStep Val.pyEq c.net (drain c.net s) b
+        (effects c b (c.net.fcalc b (drain c.net s).outC (drain c.net s).outS) (drain c.net s).outS (drain c.net s).Q).1
+        (effects c b (c.net.fcalc b (drain c.net s).outC (drain c.net s).outS) (drain c.net s).outS (drain c.net s).Q).2).E x
+        = (s.E x && x != b) := by
+      intro x
+      simp only [evalStep]
+      split
+      · simp only [hEeq]
+      · simp only [hEeq]
+        cases hx : (c.net.succC b).contains x
+        · simp
+        · have := hsucc x (by simpa using hx)
+          simp [this.1, this.2]
+    have hQ' : (evalStep Val.pyEq c.net (drain c.net s) b
+        (effects c b (c.net.fcalc b (drain c.net s).outC (drain c.net s).outS) (drain c.net s).outS (drain c.net s).Q).1
+        (effects c b (c.net.fcalc b (drain c.net s).outC (drain c.net s).outS) (drain c.net s).outS (drain c.net s).Q).2).Q
+        = [] := by
+      simp only [evalStep, effects, hne b, List.foldl_nil]
+      split <;> rfl
+    refine ⟨⟨fun a ha => ?_, fun a ha x hx => ?_, hQ'⟩, card_remove _ _ b _ hb hEb hE'⟩
+    · rw [hE'] at ha
+      simp only [Bool.and_eq_true] at ha
+      exact hc.lt a ha.1
+    · rw [hE'] at ha ⊢
+      simp only [Bool.and_eq_true, bne_iff_ne, ne_eq] at ha ⊢
+      refine ⟨hc.succ a ha.1 x hx, fun hxb => ?_⟩
+      subst hxb
+      have := hnopred a ((mem_succC c a x).mp hx).2
+      rw [hEeq, ha.1] at this; cases this
+
+theorem card_pos (E : Nat → Bool) (k b : Nat) (hb : b < k) (hE : E b = true) : 1 ≤ card E k :=
+  wsum_pos (fun _ => 1) E b k hb hE
+
+/-- with `select_blk`'s choices a burst on a successor-closed eval set of an acyclic network
+    evaluates every pending block exactly once at most -/
+theorem burst_select (c : Circuit) (P : Nat → Nat) (hP : IsPot c P) (hne : ∀ b, (c.blk b).events = [])
+    (s : St Val) (hc : Closed c s) (choices : List Nat) (hsel : choicesOk c s choices = true)
+    (h : s.cnt + card s.E c.cblocks.length ≤ c.limit) :
+    (burst c s choices).fin ≠ .unstable ∧ (burst c s choices).evals ≤ card s.E c.cblocks.length := by
+  induction choices generalizing s with
+  | nil =>
+    simp only [burst]
+    cases hi : idleOp c s with
+    | some s' => simp [Res.evals]
+    | none =>
+      simp only []
+      have hp := idleOp_none c s hi
+      obtain ⟨b, hb, hE⟩ := (anyPending_iff _ _).mp hp
+      rw [drain_closed_E c s hc] at hE
+      have hpos := card_pos s.E c.cblocks.length b hb hE
+      have hu : unstableNow c s = false := by
+        cases hx : unstableNow c s
+        · rfl
+        · have := (unstableNow_iff c s).mp hx
+          omega
+      simp [hu, Res.evals]
+  | cons b bs ih =>
+    simp only [choicesOk, Bool.and_eq_true] at hsel
+    simp only [burst]
+    split
+    · next s1 ch v heq =>
+      have hcnt := evalOp_ok_cnt c s b ch v (by rw [heq])
+      have hcl := evalOp_closed c P hP hne s hc b hsel.1 ch v (by rw [heq])
+      have hs2 := hsel.2
+      rw [heq] at hcnt hcl hs2
+      simp only [] at hcnt hcl hs2
+      have := ih s1 hcl.1 hs2 (by omega)
+      simp only [Res.evals, List.length_cons] at this ⊢
+      exact ⟨this.1, by omega⟩
+    · next s1 heq =>
+      have hi := evalOp_instability c s b (by rw [heq])
+      obtain ⟨x, hx, hE⟩ := (anyPending_iff _ _).mp hi.1
+      rw [drain_closed_E c s hc] at hE
+      have hpos := card_pos s.E c.cblocks.length x hx hE
+      omega
+    · next s1 heq => simp [Res.evals]
+
+theorem start_closed (c : Circuit) (outS : Nat → Val) : Closed c (start c outS) where
+  lt a ha := by simpa [start] using ha
+  succ a _ x hx := by
+    have := ((mem_succC c a x).mp hx).1
+    simpa [start] using this
+  q := rfl
+
+theorem card_all (k : Nat) : card (fun b => decide (b < k)) k = k := by
+  have : ∀ j, j ≤ k → wsum (fun _ => 1) (fun b => decide (b < k)) j = j := by
+    intro j
+    induction j with
+    | zero => intro _; rfl
+    | succ j ih =>
+      intro hj
+      simp only [wsum]
+      rw [ih (by omega)]
+      have : j < k := by omega
+      simp [this]
+  exact this k (Nat.le_refl _)
+
 end Edzed.Burst
